@@ -30,6 +30,10 @@ TRUSTED = [
 # op codes (shared with BTreeM.step)
 NEW, INS, DEL, DELX, GET, LEN, ITEMS, FREEZE, CLONE, CUR, SEEK, FIRST, LAST, NEXT, PREV, DUMP, ITER = range(1, 18)
 DSET, DGET, DDEL, SADD, SDISC, SIN, NEWSET, COPY = 20, 21, 22, 23, 24, 25, 26, 27
+# iterators: [ITOPEN, tree, kind]  kind 0 iter(tree) / 1 keys() / 2 items() / 3 values();  [ITNEXT, iterator, mode]
+# mode 0 key / 1 (key, value) / 2 value - one next() on the generator, None once it is exhausted.  Iterators share
+# the numbering of the cursors (in the model an iterator IS a registered cursor).
+ITOPEN, ITNEXT = 18, 19
 # MutableMapping / MutableSet mixin methods (driven on the implementation and the reference only)
 DPOP, DPOPITEM, DCLEAR, DSETDEFAULT, DUPDATE, SREMOVE, SPOP, SCLEAR = 40, 41, 42, 43, 44, 45, 46, 47
 MIXIN = {DPOP, DPOPITEM, DCLEAR, DSETDEFAULT, DUPDATE, SREMOVE, SPOP, SCLEAR}
@@ -151,6 +155,14 @@ class ImplWorld:
             if c == NEWSET:
                 self.trees.append(bt.BTreeSet(t=op[1], in_order=bool(op[2])))
                 return None
+            if c == ITNEXT:
+                if not 0 <= op[1] < len(self.cursors):
+                    return Err(999)
+                try:
+                    x = next(self.cursors[op[1]])
+                except StopIteration:
+                    return None
+                return list(x) if isinstance(x, tuple) else x
             if c in (SEEK, FIRST, LAST, NEXT, PREV):
                 if not 0 <= op[1] < len(self.cursors):
                     return Err(999)
@@ -193,6 +205,11 @@ class ImplWorld:
                 cur = tr.cursor()
                 tr.register_cursor(cur)
                 self.cursors.append(cur)
+                return None
+            if c == ITOPEN:
+                kind = op[2]
+                it = iter(tr) if kind == 0 else iter(tr.keys()) if kind == 1 else iter(tr.items()) if kind == 2 else iter(tr.values())
+                self.cursors.append(it)
                 return None
             if c == DUMP:
                 return [[dump_node(tr.root), 1], self.store_dump(tr), 1]
@@ -308,6 +325,11 @@ class RefWorld:
                 return Err(E_BADT)
             self.trees.append(RefTree(op[1], bool(op[2]), is_set=(c == NEWSET)))
             return None
+        if c == ITNEXT:
+            x = self.cursors[op[1]].next()
+            if x is None:
+                return None
+            return x[0] if op[2] == 0 else x if op[2] == 1 else x[1]
         if c in (SEEK, FIRST, LAST, NEXT, PREV):
             cur = self.cursors[op[1]]
             if c == SEEK:
@@ -353,7 +375,7 @@ class RefWorld:
                 return Err(E_NOTIMM)
             self.trees.append(RefTree(tr.t, bool(op[2]) if c == CLONE else False, tr.d, tr.is_set))
             return None
-        if c == CUR:
+        if c in (CUR, ITOPEN):
             self.cursors.append(RefCursor(tr))
             return None
         if c == DUMP:
@@ -521,6 +543,8 @@ def check_history(case, deep_every=1):
                 what = "result differs from the reference sorted dictionary"
                 if c in MUTATING and rw.trees[op[1]].frozen:
                     what = "frozen tree did not reject a mutation"
+                elif c == ITNEXT:
+                    what = "iteration interleaved with mutations differs from the reference (a parked cursor resumes after its last key)"
                 elif c in (NEXT, PREV):
                     what = "cursor result differs from the reference position"
                 elif isinstance(got, Err) and got.code not in (E_MISMATCH, E_NOMATCH, E_KEY, E_NOTIMM, E_BADT, E_IMMUTABLE):
@@ -579,6 +603,7 @@ class Gen:
         self.ops = []
         self.trees = []  # dict(keys=dict k->v, frozen, in_order)
         self.cursors = []  # tree index
+        self.iters = {}  # cursor number -> mode (the entry is an open iterator, not a Cursor)
         self.vid = 0
         self.ident = set()
         self.set_kind = set_kind
@@ -662,13 +687,28 @@ class Gen:
         else:
             self.ops.append([ITEMS, ti])
 
+    def iter_ops(self, n=2):
+        # iteration interleaved with the mutations of the history: open an iterator now and then,
+        # advance open ones a few steps
+        if not self.iters or self.rng.random() < 0.2:
+            ti = self.rng.randrange(len(self.trees))
+            kind = 0 if self.set_kind else self.rng.randrange(4)
+            self.ops.append([ITOPEN, ti, kind])
+            self.cursors.append(ti)
+            self.iters[len(self.cursors) - 1] = {0: 0, 1: 0, 2: 1, 3: 2}[kind]
+        for _ in range(n):
+            ci = self.rng.choice(sorted(self.iters))
+            self.ops.append([ITNEXT, ci, self.iters[ci]])
+
     def cursor_ops(self, n=3):
-        if not self.cursors or self.rng.random() < 0.15:
+        plain = [i for i in range(len(self.cursors)) if i not in self.iters]
+        if not plain or self.rng.random() < 0.15:
             ti = self.rng.randrange(len(self.trees))
             self.ops.append([CUR, ti])
             self.cursors.append(ti)
+            plain.append(len(self.cursors) - 1)
         for _ in range(n):
-            ci = self.rng.randrange(len(self.cursors))
+            ci = self.rng.choice(plain)
             r = self.rng.random()
             if r < 0.2:
                 tr = self.trees[self.cursors[ci]]
@@ -741,7 +781,10 @@ def gen_history(rng, t, nops, keyspace, set_kind=False, cursors=True, clones=Tru
         elif r < pins + pdel + 0.08:
             g.read(rng.randrange(len(g.trees)))
         elif r < pins + pdel + 0.16 and cursors:
-            g.cursor_ops(rng.randrange(1, 5))
+            if rng.random() < 0.35:
+                g.iter_ops(rng.randrange(1, 4))
+            else:
+                g.cursor_ops(rng.randrange(1, 5))
         elif r < pins + pdel + 0.18 and clones and len(g.trees) < 6:
             src = rng.randrange(len(g.trees))
             new = g.freeze_and_clone(src)
@@ -1063,9 +1106,74 @@ def frozen_cases(ctx):
                                                                                               [SREMOVE, 1, mid], [SPOP, 2], [SADD, 1, mid + 5], [SCLEAR, 2], [LEN, 0], [LEN, 1], [LEN, 2]]
 
 
+def iter_cases(ctx):
+    """`for k in tree` / keys() / items() / values() / iter(set) with mutations BETWEEN two steps of the
+    iterator: delete the key just yielded, delete ahead / behind, inserts that split the current leaf,
+    deletes that merge it, replacements, mutation of a clone while the original is iterated and the
+    other way round.  The yielded sequence must be the one of a cursor parked on its last key."""
+    rng = ctx.rng
+    v = [20000]
+
+    def fresh():
+        v[0] += 1
+        return v[0]
+
+    mode_of = {0: 0, 1: 0, 2: 1, 3: 2}
+    for t in (3, 4) if ctx.tier == "quick" else (3, 4, 5):
+        mx = 2 * t - 1
+        for nkeys in (1, mx, mx + 1, 3 * t, 6 * t + 1, mx * (t + 1)):
+            keys = [10 * k for k in range(nkeys)]
+            build = [[NEW, t, 0]] + [[INS, 0, k, fresh(), 0] for k in keys]
+            for kind in (0, 1, 2, 3):
+                m = mode_of[kind]
+                nx = [ITNEXT, 0, m]
+                # for k in d: del d[k]
+                yield "iter-mutate", [0] + build + [[ITOPEN, 0, kind]] + sum(([nx, [DDEL, 0, k]] for k in keys), []) + [nx, nx, [LEN, 0], [ITEMS, 0]]
+                if kind >= 2 and ctx.tier == "quick":
+                    continue
+                # delete ahead of / behind the iterator, every other key
+                yield "iter-mutate", [0] + build + [[ITOPEN, 0, kind], nx] + sum(([[DEL, 0, k + 10], nx, [DEL, 0, k - 10]] for k in keys[::2]), []) + [nx, nx, [ITEMS, 0]]
+                # inserts around the position that split the leaf the iterator is in
+                yield "iter-mutate", [0] + build + [[ITOPEN, 0, kind], nx, nx] + \
+                    sum(([[INS, 0, 10 * j + 1 + i, fresh(), 0] for i in range(4)] + [nx] for j in range(min(nkeys, 8))), []) + [nx] * 6 + [[LEN, 0]]
+                # inserts BEFORE the position (must not be seen), replacements of the key just yielded
+                yield "iter-mutate", [0] + build + [[ITOPEN, 0, kind], nx, nx, [INS, 0, -5, fresh(), 0], [INS, 0, 5, fresh(), 0], [DSET, 0, 10, fresh()], nx, [DSET, 0, 20, fresh()], nx, nx] + \
+                    [[DEL, 0, k] for k in keys[3:]] + [nx, nx, [ITEMS, 0]]
+                # deletes that merge the leaf the iterator is in (all but the first keys), then refill
+                yield "iter-mutate", [0] + build + [[ITOPEN, 0, kind]] + [nx] * min(3, nkeys) + [[DEL, 0, k] for k in keys[1:]] + [nx] + \
+                    [[INS, 0, k + 3, fresh(), 0] for k in keys] + [nx] * 4 + [[ITEMS, 0]]
+                # a clone mutated while the frozen original is iterated, and the other way round
+                yield "iter-mutate", [0] + build + [[FREEZE, 0], [CLONE, 0, 0], [ITOPEN, 0, kind], [ITOPEN, 1, kind], nx, [ITNEXT, 1, m]] + \
+                    sum(([[DDEL, 1, k], [INS, 1, k + 5, fresh(), 0], nx, [ITNEXT, 1, m]] for k in keys), []) + [nx, [ITNEXT, 1, m], [ITEMS, 0], [ITEMS, 1]]
+            # random interleavings
+            for _ in range(ctx.n(4, 12)):
+                kind = rng.randrange(4)
+                m = mode_of[kind]
+                ops = [[ITOPEN, 0, kind]]
+                present = set(keys)
+                for _ in range(rng.randrange(10, 40)):
+                    r = rng.random()
+                    if r < 0.4:
+                        ops.append([ITNEXT, 0, m])
+                    elif r < 0.7:
+                        k = rng.choice([rng.randrange(-10, 10 * nkeys + 10), rng.choice(keys)])
+                        ops.append([INS, 0, k, fresh(), rng.randrange(2)])
+                        present.add(k)
+                    else:
+                        k = rng.choice(sorted(present)) if present and rng.random() < 0.8 else rng.randrange(10 * nkeys + 1)
+                        ops.append([DEL, 0, k])
+                        present.discard(k)
+                yield "iter-mutate", [0] + build + ops + [[ITNEXT, 0, m]] * 3 + [[ITEMS, 0]]
+        # iter(set)
+        sbuild = [[NEWSET, t, 0]] + [[SADD, 0, 10 * k] for k in range(3 * t)]
+        nx = [ITNEXT, 0, 0]
+        yield "iter-mutate", [0] + sbuild + [[ITOPEN, 0, 0]] + sum(([nx, [SDISC, 0, 10 * k], [SADD, 0, 10 * k + 15]] for k in range(3 * t)), []) + [nx] * 5 + [[ITER, 0]]
+
+
 def cases(ctx):
     rng = ctx.rng
     hist = []
+    yield from iter_cases(ctx)
     yield from frozen_cases(ctx)
     yield from targeted_cases(ctx)
     yield from targeted_cases2(ctx)
